@@ -71,6 +71,10 @@ func sameModuloIndex(a, b ssa.Value, pi, pj *ssa.Parameter, depth int) bool {
 		if !ok || x.Call.StaticCallee() == nil || x.Call.StaticCallee() != y.Call.StaticCallee() || len(x.Call.Args) != len(y.Call.Args) {
 			return false
 		}
+		// only injective accessors of the element: distinct keys must stay distinct (no ties)
+		if c := x.Call.StaticCallee(); c.Pkg == nil || c.Pkg.Pkg.Path() != "reflect" || !(c.Name() == "String" || c.Name() == "Int" || c.Name() == "Uint" || c.Name() == "Interface") {
+			return false
+		}
 		for k := range x.Call.Args {
 			if !sameModuloIndex(x.Call.Args[k], y.Call.Args[k], pi, pj, depth+1) {
 				return false
